@@ -46,6 +46,31 @@ Theorem C35_delivers_if_servable : forall c sched order,
 Proof. exact delivers. Qed.
 Print Assumptions C35_delivers_if_servable.
 
+(** The same with the guard written out: a height of the range is delivered as
+    soon as SOME listed peer reports a height >= it (PeerInfoManager.PeerHeight,
+    the value availbTask filters on) and serves it - for every latency function
+    (the order in which availbTask walks the list) and whatever heights the
+    other peers report: a peer that is behind may sort before every peer that
+    has the block. *)
+Theorem C35_delivers_guard_explicit : forall c sched order h,
+  few_peers c = true -> complete_run c sched order -> In h (heights c) ->
+  (exists p, In p (job_peers c) /\ (h <= c_adv c p)%Z /\ c_beh c p h = ROk) ->
+  memZ h (delivered (task_log c sched order)) = true.
+Proof. exact delivers_guard_explicit. Qed.
+Print Assumptions C35_delivers_guard_explicit.
+
+(** Non-vacuity for that class: the fastest peer reports 5, the slow one 8,
+    heights 4..6 - 6 is asked of (and delivered by) the slow peer only. *)
+Theorem C35_behind_peer_first_example :
+  few_peers cfg_behind = true /\ complete_run cfg_behind sched_behind []
+  /\ forallb (servable cfg_behind) (heights cfg_behind) = true
+  /\ sort_tasks (init_job cfg_behind) [0; 1]%nat = [0; 1]%nat
+  /\ (c_adv cfg_behind 0 <? 6)%Z = true
+  /\ task_log cfg_behind sched_behind []
+     = [OInit [0; 1]; OReq 4%Z 0; OReq 5%Z 0; OReq 6%Z 1; ODeliver 6%Z 1; ODeliver 5%Z 0; ODeliver 4%Z 0]%nat.
+Proof. exact behind_peer_first. Qed.
+Print Assumptions C35_behind_peer_first_example.
+
 (** Only blocks of the range from peers that serve them are handed over. *)
 Theorem C35_delivered_only_served : forall c sched order,
   complete_run c sched order -> spec_sound c (task_log c sched order) = true.
